@@ -2,6 +2,7 @@
 //! One binary per property family lives in src/bin/; they all link this library.
 pub mod compile;
 pub mod export;
+pub mod party3;
 pub mod prog;
 
 use serde_json::Value as Json;
